@@ -106,7 +106,14 @@ def match(p: ast.AST, n: ast.AST, env: Env) -> Optional[Env]:
                 return None
         return e1
     if isinstance(p, ast.arg):
-        return env          # parameter lists are compared by length only (see arguments)
+        if p.arg.startswith("V_"):
+            v = p.arg[2:]
+            if v in env:
+                return env if env[v] == n.arg else None
+            e2 = dict(env)
+            e2[v] = n.arg
+            return e2
+        return env          # other parameter names are not compared
     for fld, pv in ast.iter_fields(p):
         if fld in ("ctx", "lineno", "col_offset", "end_lineno", "end_col_offset", "type_comment", "kind"):
             continue
@@ -204,3 +211,104 @@ def first(root, src: str, env: Optional[Env] = None, nodes=None) -> Tuple[Option
 
 def txt(x) -> str:
     return _txt(x) if isinstance(x, ast.AST) else str(x)
+
+
+# ------------------------------------------------------------------------------------------------------------------
+# Snippets: patterns written with the *current* local names of the code; every bare name that is neither a parameter of
+# the analysed function, nor a module-level name of its module, nor a builtin, is turned into a V_ metavariable, so the
+# rule states the structure and not the spelling of locals, comprehension variables, lambda / nested-def parameters.
+import builtins as _bi
+
+_BUILTINS = set(dir(_bi))
+
+
+def _module_names(mod) -> set:
+    return set(mod.imports) | set(mod.classes) | set(mod.functions) | set(mod.assigns)
+
+
+class _Conv(ast.NodeTransformer):
+    def __init__(self, literals):
+        self.lit = literals
+
+    def visit_Name(self, node):
+        i = node.id
+        if i in self.lit or i in ("ANY", "REST") or i.startswith(("V_", "E_")):
+            return node
+        return ast.copy_location(ast.Name(id="V_" + i, ctx=node.ctx), node)
+
+    def visit_arg(self, node):
+        if node.arg in ("self", "cls") or node.arg.startswith("V_"):
+            return node
+        return ast.copy_location(ast.arg(arg="V_" + node.arg, annotation=None), node)
+
+
+class Snips:
+    """pattern queries over one function; see the note above."""
+
+    def __init__(self, fi, literals: Iterable[str] = (), root: Optional[ast.AST] = None):
+        self.fi = fi
+        top = fi
+        while getattr(top, "parent", None) is not None:
+            top = top.parent
+        pn = set()
+        a = top.node.args
+        for x in a.posonlyargs + a.args + a.kwonlyargs:
+            pn.add(x.arg)
+        if a.vararg:
+            pn.add(a.vararg.arg)
+        if a.kwarg:
+            pn.add(a.kwarg.arg)
+        self.literals = pn | {"self", "cls"} | _module_names(fi.module) | _BUILTINS | set(literals)
+        self.root = root if root is not None else fi.node
+        self._nodes = list(ast.walk(self.root))
+        self.stmts = [n for n in self._nodes if isinstance(n, ast.stmt)]
+        self.exprs = [n for n in self._nodes if isinstance(n, ast.expr)]
+        self._pc: Dict[str, ast.AST] = {}
+
+    def conv(self, src: str) -> ast.AST:
+        if src not in self._pc:
+            tree = ast.parse(src.strip())
+            tree = _Conv(self.literals).visit(tree)
+            node: ast.AST = tree.body[0] if len(tree.body) == 1 else tree
+            if isinstance(node, ast.Expr):
+                node = node.value
+            self._pc[src] = node
+        return self._pc[src]
+
+    def find(self, src: str, env: Optional[Env] = None, within: Optional[ast.AST] = None) -> List[Tuple[ast.AST, Env]]:
+        p = self.conv(src)
+        if within is not None:
+            pool = [n for n in ast.walk(within) if isinstance(n, ast.stmt if isinstance(p, ast.stmt) else ast.expr)]
+        else:
+            pool = self.stmts if isinstance(p, ast.stmt) else self.exprs
+        out = []
+        for n in pool:
+            e = match(p, n, dict(env or {}))
+            if e is not None:
+                out.append((n, e))
+        out.sort(key=lambda x: (getattr(x[0], "lineno", 0), getattr(x[0], "col_offset", 0)))
+        return out
+
+    def first(self, src: str, env: Optional[Env] = None, within: Optional[ast.AST] = None) -> Tuple[Optional[ast.AST], Optional[Env]]:
+        r = self.find(src, env, within)
+        return r[0] if r else (None, None)
+
+    def has(self, src: str, env: Optional[Env] = None, within: Optional[ast.AST] = None) -> bool:
+        return bool(self.find(src, env, within))
+
+    def solve(self, pats: List[str], env: Optional[Env] = None, within: Optional[ast.AST] = None) -> Optional[Tuple[Env, List[ast.AST]]]:
+        """a consistent assignment of all patterns (backtracking); None when there is none."""
+        def rec(i, e, acc):
+            if i == len(pats):
+                return e, acc
+            for n, e2 in self.find(pats[i], e, within):
+                r = rec(i + 1, e2, acc + [n])
+                if r is not None:
+                    return r
+            return None
+        return rec(0, dict(env or {}), [])
+
+    def m(self, src: str, node: ast.AST, env: Optional[Env] = None) -> Optional[Env]:
+        if node is None:
+            return None
+        return match(self.conv(src), node, dict(env or {}))
